@@ -939,8 +939,10 @@ class PRUDPClient:
 				await self.cleanup()
 				return
 			
-			handle = self.scheduler.schedule(self.resend_packet, self.resend_timeout, packet, counter + 1)
-			self.ack_events[key] = handle
+			# The packet may have been acknowledged while it was being sent
+			if key in self.ack_events:
+				handle = self.scheduler.schedule(self.resend_packet, self.resend_timeout, packet, counter + 1)
+				self.ack_events[key] = handle
 		else:
 			logger.error("Packet timed out: %s" %packet)
 			await self.cleanup()
